@@ -368,6 +368,8 @@ def jobs(tier):
                                                                             ("days", "seconds"), ("months", "hours", "seconds"))]
     for s in pick:
         lim = 999999 if len(s) <= 2 else (9999 if len(s) <= 3 else 99)
+        if th:
+            lim = 999999999 if len(s) <= 2 else (999999 if len(s) <= 3 else (9999 if len(s) <= 4 else 999))
         J.append(("job_roundtrip", dict(present=s, lim=lim)))
         if len(s) <= 3 or th:
             J.append(("job_roundtrip", dict(present=s, lim=min(lim, 9999), negative=True)))
@@ -376,8 +378,10 @@ def jobs(tier):
     J.append(("job_roundtrip", dict(present=(), weeks=True, negative=True)))
     shapes = [("weeks",), ("years",), ("months",), ("days",), ("hours",), ("minutes",), ("seconds",), UNITS,
               ("years", "minutes"), ("months", "minutes"), ("days", "hours"), ("hours", "seconds"), ("years", "months", "days")]
+    if th:
+        shapes = [("weeks",)] + subsets
     for sh in shapes:
-        for nd in ((1, 2, 3) if len(sh) == 1 else (2,)):
+        for nd in (((1, 2, 3, 4, 6) if th else (1, 2, 3)) if len(sh) == 1 else ((1, 2, 3) if th and len(sh) <= 3 else (2,))):
             J.append(("job_parse", dict(shape=sh, nd=nd)))
         J.append(("job_parse", dict(shape=sh, nd=1, negative=True)))
     for sh in (("hours",), ("minutes",), ("seconds",), ("hours", "minutes"), ("days", "seconds")):
@@ -401,9 +405,10 @@ INFO = {
                    "date-time-like spellings (extended and basic, all digits symbolic) equal the designator spelling.",
     "bounds": {"quick": {"components": "0..999999 (1-2 units), 0..9999 (3 units), 0..99 (4-6 units); selected unit subsets",
                          "designator strings": "1-3 symbolic digits per component", "decimals": "fraction digits concrete: ,5 .25 ,000001 .0; plus 12 concrete decimal texts"},
-               "thorough": {"components": "every subset of units"}},
+               "thorough": {"components": "every subset of units; 0..999 999 999 (1-2 units), 0..999 999 (3), 0..9999 (4), 0..999 (5-6)",
+                            "designator strings": "every subset of units; 1-6 symbolic digits (single unit), 1-3 (2-3 units), 2 (more)"}},
     "outside": ["decimal component values with symbolic fraction digits (floating point)", "mixed-sign durations (excluded by the property)",
-                "components of 7 or more digits"],
+                "components of 7 or more digits (quick) / 10 or more digits (thorough)"],
     "assumptions": ["the regex shim interprets the library's own patterns from CPython's parse tree; it is validated against re on every run (symx.validate_strs)"],
 }
 REQUIRED_SCENARIOS = {"all": ["date-time-like with decimal", "negative duration", "weeks form", "zero component", "all components zero", "designator parse",
